@@ -60,6 +60,11 @@ func famUniverse(tw *traceWriter, r *rand.Rand, n int) {
 			mode := pick(r, modes)
 			a, b := r.Intn(len(u.Variants)), r.Intn(len(u.Variants))
 			if c := u.mkCase(mode, a, b, r.Intn(len(u.StructTests)), r.Intn(64), r.Intn(64)); c != nil {
+				// the universe's third coordinate: a destination that was used before (where there is a container)
+				if mode == "parse" && (hasContainer(c.Schema.Kids[0].Node) || hasContainer(c.Schema.Kids[1].Node)) {
+					c.Pre = 2 * r.Intn(2)
+					c.ID += fmt.Sprintf("-p%d", c.Pre)
+				}
 				tw.emitCase(c, "", true)
 			}
 		}
@@ -76,7 +81,18 @@ func famUniverse(tw *traceWriter, r *rand.Rand, n int) {
 					for i1 := 0; i1 < na; i1++ {
 						for i2 := 0; i2 < nb; i2++ {
 							if c := u.mkCase(mode, a, b, s, i1, i2); c != nil {
-								tw.emitCase(c, "", true)
+								pres := []int{0}
+								if mode == "parse" && (hasContainer(c.Schema.Kids[0].Node) || hasContainer(c.Schema.Kids[1].Node)) {
+									pres = []int{0, 2}
+								}
+								for _, pre := range pres {
+									cc := *c
+									cc.Pre = pre
+									if pre != 0 {
+										cc.ID += fmt.Sprintf("-p%d", pre)
+									}
+									tw.emitCase(&cc, "", true)
+								}
 							}
 						}
 					}
@@ -84,6 +100,18 @@ func famUniverse(tw *traceWriter, r *rand.Rand, n int) {
 			}
 		}
 	}
+}
+
+func hasContainer(n *Node) bool {
+	if n.K == "slice" || n.K == "ptr" {
+		return true
+	}
+	for _, k := range n.Kids {
+		if hasContainer(k.Node) {
+			return true
+		}
+	}
+	return false
 }
 
 func init() {
